@@ -158,6 +158,28 @@ example : hdrsValid (ReqAct.modReq [("authorization", "Bearer a:b"), ("x-y", "")
 example : decodeReq (encodeReq (.modHdr [("a:b", "c"), ("x", "1")])) = some (.modHdr [("x", "1")]) := by decide
 example : parseHeaders (dumpHeaders [("a", "1\nx-injected:2")]) = [("a", "1x-injected:2")] := by decide
 
+/-! ### … over bytes
+
+Go strings are byte strings (not necessarily UTF-8).  A model `String` stands for a byte string,
+character `b < 256` ↔ byte `b` (`ofBytes`/`toBytes`, exact inverses on bytes); `dumpB`/`parseB`
+are `dumpHeaders`/`parseHeaders` read through that correspondence. -/
+
+theorem bytes_roundtrip (bs : Bytes) : toBytes (ofBytes bs) = bs := toBytes_ofBytes bs
+
+/-- The dump, byte for byte: for every kept entry `name 0x3A value' 0x0A` where `value'` is the
+    value without its 0x0D/0x0A bytes — every other byte (≥ 0x80, invalid UTF-8, NUL …) untouched. -/
+theorem dump_bytes_exact (h : List (Bytes × Bytes)) : dumpB h = dumpSpecB (sanitizeB h) := dumpB_eq h
+
+/-- Reading the dump back gives the sanitized header list byte for byte, for EVERY header list. -/
+theorem encode_bytes_faithful (h : List (Bytes × Bytes)) : parseB (dumpB h) = sanitizeB h :=
+  parseB_dumpB h
+
+/-- `filename="r\xe9sum\xe9.pdf"` (ISO-8859-1), a lone continuation byte, an overlong form and 0xFF
+    survive; CR/LF go; the name with a byte ≥ 0x80 is dropped. -/
+example : dumpB [([0x78], [0x72, 0xE9, 0x73, 0x0D, 0x0A, 0x80, 0xC0, 0xAF, 0xFF]), ([0x6B, 0xE9], [0x31])]
+    = [0x78, 0x3A, 0x72, 0xE9, 0x73, 0x80, 0xC0, 0xAF, 0xFF, 0x0A] := by
+  rw [dump_bytes_exact]; decide
+
 /-! ## Connection: the judge predicate is true of every model run -/
 
 /-- Request side, full observation of one fold (rule + encoding), every sequence. -/
